@@ -146,10 +146,11 @@ def check_parse(res, raw, tag, rep):
                       rep, size=len(raw))
         return st
     if st == 'exc':
-        if isinstance(v, MemoryError):
-            res.violation('%s/memory/%s' % (PROP, tag),
-                          'parseMessage raised MemoryError on %d bytes'
-                          % len(raw), rep, size=len(raw))
+        if isinstance(v, (MemoryError, RecursionError)):
+            res.violation('%s/%s/%s' % (PROP, 'memory' if isinstance(
+                              v, MemoryError) else 'recursion', tag),
+                          'parseMessage raised %s on %d bytes'
+                          % (type(v).__name__, len(raw)), rep, size=len(raw))
         res.outcome(('exc', type(v).__name__))
         return st
     size = _leaves(getattr(v, 'body', None)) + _leaves(
@@ -183,11 +184,37 @@ def check_protocol(res, raw, tag, rep):
                       'dataReceived did not finish within %d line events on '
                       '%d bytes (%s)' % (budget(len(raw)), len(raw), tag),
                       rep, size=len(raw))
-    elif st == 'exc' and isinstance(v, MemoryError):
-        res.violation('%s/memory-protocol/%s' % (PROP, tag),
-                      'dataReceived raised MemoryError', rep, size=len(raw))
+    elif st == 'exc' and isinstance(v, (MemoryError, RecursionError)):
+        res.violation('%s/%s-protocol/%s' % (PROP, 'memory' if isinstance(
+                          v, MemoryError) else 'recursion', tag),
+                      'dataReceived raised %s' % type(v).__name__, rep,
+                      size=len(raw))
     res.outcome(('proto', st, type(v).__name__ if st == 'exc'
                  else len(p.got)))
+    if st != 'ok' or not p.got or len(raw) > 4000:
+        return
+    # the same bytes once more with a handler that re-enters the protocol
+    # (an empty read, as a handler talking to its peer over an in-memory
+    # transport causes): every frame is still decoded once
+    res.count('transitions')
+    p2, _t2 = c04.make_server()
+    p2.dataReceived(c04.SERVER_HS)
+    p2.hook = lambda proto: proto.dataReceived(b'')
+    with core.Watchdog(60):
+        try:
+            st2, v2, n2 = meter.metered(lambda: p2.dataReceived(raw),
+                                        budget(len(raw)))
+        except core.ExecutionTimeout:
+            st2, v2, n2 = 'budget', None, -1
+    if st2 == 'budget' or (st2 == 'exc' and isinstance(
+            v2, (MemoryError, RecursionError))) or \
+            (st2 == 'ok' and len(p2.got) != len(p.got)):
+        res.violation('%s/reentrant-protocol/%s' % (PROP, tag),
+                      'with a handler that re-enters dataReceived, %d bytes '
+                      'holding %d message(s) ended as %s with %d deliveries '
+                      '(%s)' % (len(raw), len(p.got), st2, len(p2.got),
+                                type(v2).__name__ if st2 == 'exc' else n2),
+                      rep, size=len(raw))
 
 
 SUBS = [0x00, 0x01, 0x7f, 0x80, 0xff] + [ord(c) for c in 'a(){}vysg']
